@@ -105,7 +105,7 @@ func (x *Exec) jsonEmpty(v Value) bool {
 // jsonConvert models "marshal a value of type st, unmarshal the text into a value of type dt" for two different
 // struct types: members are matched by their JSON names (case-sensitively), omitempty members that are empty are
 // not transmitted, members unknown to the target are ignored. Everything else must have identical types.
-func (x *Exec) jsonConvert(v Value, st, dt types.Type) (Value, bool) {
+func (x *Exec) jsonConvert(v Value, st, dt types.Type, fold bool) (Value, bool) {
 	if types.Identical(st, dt) {
 		return x.deepCopyJSON(v), true
 	}
@@ -118,8 +118,58 @@ func (x *Exec) jsonConvert(v Value, st, dt types.Type) (Value, bool) {
 			if p == nil {
 				return x.zero(dt), true
 			}
-			return x.jsonConvert(x.load(p), sp.Elem(), dt)
+			return x.jsonConvert(x.load(p), sp.Elem(), dt, fold)
 		}
+	}
+	// a JSON object held as a Go map decoded into a struct: members are matched to fields by JSON name — exactly,
+	// or (fold: encoding/json's default) ignoring letter case when there is no exact match; later members overwrite
+	if mt, isMap := st.Underlying().(*types.Map); isMap {
+		ds, isStruct := dt.Underlying().(*types.Struct)
+		mv, _ := v.(*MapV)
+		if !isStruct {
+			return nil, false
+		}
+		out, _ := x.zero(dt).(*Agg)
+		if mv == nil || out == nil {
+			return out, out != nil
+		}
+		for _, e := range mv.Entries {
+			kt, ok := e.K.(*Term)
+			if !ok || !kt.IsConc() || e.Present != nil {
+				return nil, false
+			}
+			key := kt.C.(string)
+			target := -1
+			for i := 0; i < ds.NumFields(); i++ {
+				if n, _, _, skip := jsonField(ds.Field(i), ds.Tag(i)); !skip && n == key {
+					target = i
+				}
+			}
+			if target < 0 && fold {
+				for i := 0; i < ds.NumFields(); i++ {
+					if n, _, _, skip := jsonField(ds.Field(i), ds.Tag(i)); !skip && strings.EqualFold(n, key) {
+						target = i
+						break
+					}
+				}
+			}
+			if target < 0 {
+				continue // unknown member: ignored
+			}
+			ev, et := e.V, mt.Elem()
+			if iv, isIface := ev.(*IfaceV); isIface && isEmptyIface(et) {
+				if iv == nil {
+					continue // null
+				}
+				ev, et = iv.V, iv.T
+			}
+			cv, ok := x.jsonConvert(ev, et, ds.Field(target).Type(), fold)
+			if !ok {
+				return nil, false
+			}
+			out.Elems[target] = cv
+		}
+		return out, true
 	}
 	ss, ok1 := st.Underlying().(*types.Struct)
 	ds, ok2 := dt.Underlying().(*types.Struct)
@@ -148,7 +198,7 @@ func (x *Exec) jsonConvert(v Value, st, dt types.Type) (Value, bool) {
 			if (omitEmpty || omitZero) && x.jsonEmpty(fv) {
 				break // not transmitted: the target keeps its zero value
 			}
-			cv, ok := x.jsonConvert(fv, ss.Field(j).Type(), ds.Field(i).Type())
+			cv, ok := x.jsonConvert(fv, ss.Field(j).Type(), ds.Field(i).Type(), fold)
 			if !ok {
 				return nil, false
 			}
@@ -366,6 +416,15 @@ func harnessIntrinsic(short string) intrinsicFn {
 		return func(x *Exec, _ *ssa.Function, a []Value) Value {
 			x.addGuards(unwrapAny(a[0]).(*Pointer), x.sliceElems(a[1].(*SliceV)))
 			return nil
+		}
+	case "vHeld":
+		// vHeld(&mu): is the mutex currently held (by this thread in scheduler mode)?
+		return func(x *Exec, _ *ssa.Function, a []Value) Value {
+			p, _ := unwrapAny(a[0]).(*Pointer)
+			if p == nil {
+				return tFalse
+			}
+			return mkBool(x.muHeld(ptrKey(p)))
 		}
 	case "vShared":
 		return func(x *Exec, _ *ssa.Function, a []Value) Value {
@@ -1354,10 +1413,8 @@ func stdIntrinsic(name string, fn *ssa.Function) intrinsicFn {
 			}
 			p := dst.V.(*Pointer)
 			if ti.miscased {
-				if _, isStruct := pt.Elem().Underlying().(*types.Struct); !isStruct {
-					x.abort("UNSUPPORTED", "miscased JSON into a non-struct target")
-				}
-				if strings.HasSuffix(name, "go-sdk/internal/json.Unmarshal") {
+				_, isStruct := pt.Elem().Underlying().(*types.Struct)
+				if isStruct && strings.HasSuffix(name, "go-sdk/internal/json.Unmarshal") {
 					return nilErr // case-sensitive decoder: no member matches, the target keeps its zero fields
 				}
 			}
@@ -1396,7 +1453,7 @@ func stdIntrinsic(name string, fn *ssa.Function) intrinsicFn {
 			default:
 				if sp, isPtr := src.T.(*types.Pointer); isPtr && types.Identical(pt.Elem(), sp.Elem()) && src.V.(*Pointer) != nil {
 					x.store(p, x.deepCopyJSON(x.load(src.V.(*Pointer))))
-				} else if cv, ok := x.jsonConvert(src.V, src.T, pt.Elem()); ok {
+				} else if cv, ok := x.jsonConvert(src.V, src.T, pt.Elem(), !strings.HasSuffix(name, "go-sdk/internal/json.Unmarshal")); ok {
 					x.store(p, cv)
 				} else {
 					return x.newErr("json: cannot unmarshal into " + pt.Elem().String())
